@@ -1,7 +1,8 @@
 \* repaired model, one caller at a time: API + durability + crash/close/reopen
+\* measured: 370 646 / 1 274 312, depth 39 (distinct / generated states)
 CONSTANTS NTx = 3 Kind <- KindS Sender <- SenderS Nonce <- NonceS NAccs = 1 Accs <- MCAccs StartEmpty = FALSE
   Max = 3 NPushers = 1 NConsumers = 0 Batch = 2
-  MaxPush = 4 MaxBlocks = 1 MaxFail = 0 MaxCrash = 1 MaxClose = 1 MaxPops = 2 MaxExecErr = 0 MaxFatal = 0
+  MaxPush = 4 MaxBlocks = 1 MaxFail = 0 MaxCrash = 1 MaxClose = 1 MaxPops = 1 MaxExecErr = 0 MaxFatal = 0
   DedupFix = TRUE OverflowFix = TRUE Mutant = "none"
 INIT Init
 NEXT Next
